@@ -15,7 +15,7 @@ RULE = (
     "distinct_nontrivial = distinct (model cell, final call, history signature) tuples"
 )
 REQUIRED = {"calls_monitored": 300, "diff_fresh_vs_history": 40, "diff_fresh_vs_reload": 20, "diff_repeat_reused_settings": 20, "input_snapshots": 200,
-            "final_personalize": 40, "final_estimate": 10, "diff_before_vs_after_history": 20}
+            "final_personalize": 40, "final_estimate": 10, "diff_before_vs_after_history": 20, "diff_refit_vs_its_reload": 4}
 ASSUMPTIONS = [
     "two models 'hold the same parameters' when their parameter tensors are bit-identical; reload is compared only in that case (exactness of reload is C12's job)",
     "after a fit the model state documentedly keeps the training data; the monitor flags only data / individual values that a personalize / estimate / simulate "
@@ -112,7 +112,8 @@ def run_shard(spec, ctx):
         tmp = tempfile.mkdtemp(prefix="vf-c13-")
         try:
             df_train = gen.cohort(rng, n_ind=int(rng.integers(6, 11)), n_feat=dim, missing="mcar", events=events, one_visit_ok=False, binary=binary)
-            df_new = gen.cohort(rng, n_ind=int(rng.choice([2, 4, 13])), n_feat=dim, missing="mcar", events=events, one_visit_ok=not events, binary=binary)
+            df_new = gen.cohort(rng, n_ind=int(rng.choice([2, 4, 13] if events else [1, 1, 2, 4, 13])), n_feat=dim, missing="mcar", events=events,
+                                one_visit_ok=not events, binary=binary)
 
             def fitted():
                 m = gen.make_model(kind, dim, src, noise) if noise else gen.make_model(kind, dim, src)
@@ -236,13 +237,32 @@ def run_shard(spec, ctx):
             history = [hist_ops[int(rng.integers(len(hist_ops)))] for _ in range(h_len)]
             if (spec["k"] + i) % 3 == 0 and kind not in ("joint",) and "scipy_minimize_custom" not in history:
                 history.append("scipy_minimize_custom")
+            refit = bool((spec["k"] + i) % 4 == 1) and kind != "joint"
             for what in history:
                 do_call(hist, what, who="history-model(intermediate)")
+            if refit:
+                # the calibration of the history model is resumed (second fit on the same object) after it was used: whatever it answers
+                # afterwards must be what a model reloaded from its own saved file answers (same parameters, no history)
+                with contextlib.redirect_stdout(io.StringIO()):
+                    hist.fit(gen.to_dataset(df_train, events=events), "mcmc_saem", n_iter=6, seed=seed_fit + 1, progress_bar=False)
+                p2 = os.path.join(tmp, "hist.json")
+                hist.save(p2)
+                twin = BaseModel.load(p2)
+                ctx.count("refits_in_history")
+                if dig(dict(twin.parameters)) == dig(dict(hist.parameters)):
+                    for what in [w for w in ("estimate", "mean_posterior") if w in allowed]:
+                        o_h = do_call(hist, what, who="history-model(after resumed fit)")
+                        o_t = do_call(twin, what, who="reloaded copy of the history-model")
+                        ctx.count("diff_refit_vs_its_reload")
+                        if o_h != o_t:
+                            ctx.violation(f"api/{what}/stale-after-resumed-fit",
+                                          f"{what}: after {history} + a resumed fit, the model's answer differs from the answer of its own reloaded copy", dict(case0, history=history))
+                history = history + ["(resumed fit)"]
             # final calls
             for what in finals:
                 case = dict(case0, final=what, history=history)
                 o_fresh = do_call(fresh, what, who="fresh-from-fit")
-                o_hist = do_call(hist, what, who="after-history")
+                o_hist = do_call(hist, what, who="after-history") if not refit else o_fresh
                 ctx.count("diff_fresh_vs_history")
                 ctx.count("final_estimate" if what == "estimate" else ("final_simulate" if what.startswith("simulate") else "final_personalize"))
                 key_suffix = "scipy_minimize/start-from-leftover-state" if what == "scipy_minimize" else f"api/{what}/result-depends-on-earlier-calls"
